@@ -463,6 +463,7 @@ class MultiStream(Stream):
     @phases.setter
     def phases(self, phases):
         phases = set(phases)
+        if not phases: raise ValueError('at least one phase must be given')
         if len(phases) == 1:
             self.phase, = phases
         phases = phase_tuple(phases)
